@@ -58,7 +58,8 @@ OPS = {
 
 CHEAP = ["hs", "oned", "momf1", "momd1", "tm01", "goda", "uss_x", "mss", "crsd", "stats", "to_energy"]
 ROOTS = ["tm02", "dspr", "swe", "dm"]
-PEAKS = ["tp", "tp_raw", "dp", "dpm", "gamma"]
+PEAKS = ["tp", "tp_raw", "dp", "dpm"]
+PEAKS_SLOW = ["gamma"]
 TRANSFORMS = ["smooth", "smooth13", "interp", "rotate", "split", "split_dir"]
 PARTS = ["ptm4", "ptm5", "bbox"]
 
